@@ -34,6 +34,8 @@ type pruneState struct {
 	nonce   int
 	txOf    map[uint64]common.Hash
 	setHash map[uint64][]byte // validator-set hash in force from each change height
+	crashAt          int
+	lastStatusWrites int
 }
 
 const pruneBudget = 200000
@@ -117,9 +119,43 @@ func (p *pruneState) grow(chg string) string {
 			p.setHash[st.LastHeightValidatorsChanged] = st.Validators.Hash()
 		}
 		p.status = st
+		n0 := p.ctl.N
+		if p.crashAt > 0 {
+			p.ctl.KillAt = p.ctl.N + p.crashAt
+		}
 		cs.SaveStatus(p.sdb, st)
+		p.ctl.KillAt = 0
+		p.lastStatusWrites = p.ctl.N - n0
 	}
 	return fmt.Sprintf("h=%d", p.height())
+}
+
+// statusCrash commits one more block and persists its status with a crash at the k-th durable write of SaveStatus (all
+// later writes lost); then reads the status database the way a restarting node does: the persisted status, and the validator
+// and parameter records of the height it is about to decide (LastBlockHeight+1).
+func (p *pruneState) statusCrash(k int, chg bool) string {
+	before := p.status.LastBlockHeight
+	// run grow up to (not including) SaveStatus: do it on a copy of the op with the crash armed only around SaveStatus
+	c := "0"
+	if chg {
+		c = "1"
+	}
+	p.crashAt = k
+	ans := p.grow(c)
+	p.crashAt = 0
+	if !strings.HasPrefix(ans, "h=") {
+		return ans
+	}
+	st, err := cs.LoadStatus(p.sdb)
+	if err != nil {
+		return "status=unreadable"
+	}
+	next := st.LastBlockHeight + 1
+	res := fmt.Sprintf("status=+%d writes=%d vals=%s params=%s", st.LastBlockHeight-before, p.lastStatusWrites, p.loadVals(next), p.loadParams(next))
+	// the surviving process state is discarded: continue from what the database holds, as a restart does
+	// the block itself is committed in the block store; a restarting node re-applies it (status lag of one block) and saves again
+	cs.SaveStatus(p.sdb, p.status)
+	return res
 }
 
 func (p *pruneState) prune(k uint64) (ans string) {
@@ -238,6 +274,11 @@ func (e *exec) pruneOp(toks []string) string {
 			return "nochain"
 		}
 		return e.pr.view()
+	case "statuscrash":
+		if e.pr == nil {
+			return "nochain"
+		}
+		return e.pr.statusCrash(int(hx.ArgI(toks, "at", 1)), hx.ArgI(toks, "chg", 0) == 1)
 	}
 	return "bad-op"
 }
@@ -260,6 +301,11 @@ func pruneMonitor(c *hx.CaseRun) []hx.Failure {
 				fs = append(fs, hx.Failure{Monitor: "prune_returns", Class: "prune-runaway", Site: "blockchain/store.go:DeleteHistoricalData", Msg: op + ": more than 200000 store operations on a chain of <= 64 blocks"})
 			} else if ans != "ok" {
 				fs = append(fs, hx.Failure{Monitor: "no_panic", Class: "prune-panic", Site: "DeleteHistoricalData", Msg: op + " -> " + ans})
+			}
+		case "statuscrash":
+			if strings.HasPrefix(ans, "status=") && (!strings.Contains(ans, "vals=") || strings.Contains(ans, "vals=-") || strings.Contains(ans, "vals=P") || strings.Contains(ans, "vals=nil") || !strings.Contains(ans, "params=1")) {
+				fs = append(fs, hx.Failure{Monitor: "status_consistent_after_crash", Class: "status-ahead-of-its-records", Site: "consensus/new_status.go:saveStatus",
+					Msg: op + " -> " + ans + ": the persisted status names a height whose validator or parameter record was not written"})
 			}
 		case "view":
 			if kmin < 0 || !strings.HasPrefix(ans, "h=") {
@@ -351,6 +397,11 @@ func pruneCases(g *hx.Gen) {
 				}
 			}
 			ops = append(ops, fmt.Sprintf("prune k=%d", K), "view")
+			if g.Rng.Intn(2) == 0 { // one more block whose status save is cut at every write in turn (over the cases)
+				ops = append(ops, fmt.Sprintf("statuscrash at=%d chg=%d", 1+g.Rng.Intn(6), g.Rng.Intn(2)), "view")
+				H++
+				g.Count("statuscrash")
+			}
 			if g.Rng.Intn(3) == 0 {
 				ops = append(ops, fmt.Sprintf("prune k=%d", K), "view") // idempotence
 			}
